@@ -569,6 +569,16 @@ func (m *Memberlist) resetNodes() {
 	// Move dead nodes, but respect gossip to the dead interval
 	deadIdx := moveDeadNodes(m.nodes, m.config.GossipToTheDeadTime)
 
+	// Never reap our own record: after a Leave it is marked as left, but
+	// LocalNode, UpdateNode and Leave still look it up.
+	for i := deadIdx; i < len(m.nodes); i++ {
+		if m.nodes[i].Name == m.config.Name {
+			m.nodes[i], m.nodes[deadIdx] = m.nodes[deadIdx], m.nodes[i]
+			deadIdx++
+			break
+		}
+	}
+
 	// Deregister the dead nodes
 	for i := deadIdx; i < len(m.nodes); i++ {
 		delete(m.nodeMap, m.nodes[i].Name)
